@@ -139,6 +139,10 @@ def float_solver(chk: Check, n):
         effs = tuple(sign * sd * e for e in (rng.uniform(0.01, 0.08), rng.uniform(0.08, 0.4)))
         if i % 4 == 2:
             effs = effs + (effs[0],)
+        if i % 3 == 1:
+            # small designs: an effect of the order of the standard deviation needs only a few observations more than the
+            # smallest admissible sample — the bracket of the root search starts right there
+            effs = effs + (sign * sd * rng.uniform(0.7, 3.0), sign * sd * rng.uniform(1.0, 2.2))
         try:
             resn = tt.Mean(*cols, effect_size=effs, **kw).solve_power(data, "n_obs")
         except Exception as ex:  # noqa: BLE001
